@@ -37,6 +37,44 @@ def run_variant(args):
     return ("ok", viol, unk)
 
 
+VERIF = os.path.dirname(os.path.dirname(os.path.abspath(__file__)))
+
+
+def run_diff(args):
+    """a stored diff replayed on the current tree: ("skipped"|"ok"|"error", violations, undecided)"""
+    prop, root, path = args
+    from .__main__ import analyse
+    from .patching import patched_sources
+    try:
+        src = patched_sources(path, root)
+    except Exception:
+        src = None
+    if src is None:
+        return ("skipped", [], [])
+    try:
+        mod, ctx = analyse(prop, root, "quick", sources=src)
+    except Exception as ex:  # pragma: no cover
+        return ("error", [f"{type(ex).__name__}: {ex}"], [])
+    viol = [(r.rule, r.func, r.construct[:120]) for r in ctx.results if r.status == VIOLATION]
+    unk = [(r.rule, r.func, r.construct[:120], r.msg[:120]) for r in ctx.results if r.status == UNKNOWN]
+    return ("ok", viol, unk)
+
+
+def corpus(prop):
+    """(behaviour-preserving refactor diffs, seeded breaking diffs owned by `prop`)"""
+    import glob
+    import json
+    refactors = sorted(glob.glob(os.path.join(VERIF, "neutral", "*.diff")))
+    seeded = []
+    for d in sorted(glob.glob(os.path.join(VERIF, "seeded", "*", "meta.json"))):
+        try:
+            if json.load(open(d)).get("property") == prop:
+                seeded.append(os.path.join(os.path.dirname(d), "patch.diff"))
+        except Exception:
+            continue
+    return refactors, seeded
+
+
 def run_selftest(prop, root, seed=0, jobs=None):
     from . import variants
     mutants = list(variants.MUTANTS.get(prop, []))
@@ -48,13 +86,33 @@ def run_selftest(prop, root, seed=0, jobs=None):
     for m in neutral:
         name, module, old, new = m[:4]
         tasks.append(("neutral", name, None, (prop, root, module, old, new, m[4] if len(m) > 4 else None)))
+    refactors, seeded = corpus(prop)
     res = {"mutants": len(mutants), "neutral": len(neutral), "fired": 0, "silent": 0, "skipped": 0, "failures": [], "seed": seed,
-           "fired_samples": []}
-    if not tasks:
+           "fired_samples": [], "refactor_diffs": len(refactors), "refactor_silent": 0, "seeded_diffs": len(seeded), "seeded_fired": 0}
+    dtasks = [("refactor", os.path.basename(p), (prop, root, p)) for p in refactors] + [("seeded", os.path.basename(os.path.dirname(p)), (prop, root, p)) for p in seeded]
+    if not tasks and not dtasks:
         return res
-    jobs = jobs or min(16, len(tasks))
+    jobs = jobs or min(16, len(tasks) + len(dtasks))
     with ProcessPoolExecutor(max_workers=jobs) as ex:
+        douts = list(ex.map(run_diff, [t[2] for t in dtasks]))
         outs = list(ex.map(run_variant, [t[3] for t in tasks]))
+    for (kind, name, _), (status, viol, unk) in zip(dtasks, douts):
+        if status == "skipped":
+            res["skipped"] += 1
+        elif status == "error":
+            res["failures"].append(f"{kind} diff '{name}': analyser crashed: {viol}")
+        elif kind == "refactor":
+            if viol:
+                res["failures"].append(f"behaviour-preserving refactor '{name}' raised a false alarm: {viol[:3]}")
+            elif unk:
+                res["failures"].append(f"behaviour-preserving refactor '{name}' became undecided: {unk[:2]}")
+            else:
+                res["refactor_silent"] += 1
+        else:
+            if viol:
+                res["seeded_fired"] += 1
+            else:
+                res["failures"].append(f"seeded breaking change '{name}' not reported (undecided: {unk[:2]})")
     for (kind, name, expect, _), (status, viol, unk) in zip(tasks, outs):
         if status == "skipped":
             res["skipped"] += 1
